@@ -40,6 +40,9 @@ class TGen:
                 bt = rng.choice(['int', 'unsigned', 'signed char', 'unsigned long', '_Bool', 'short'])
                 w = 1 if bt == '_Bool' else rng.randint(1, {'int': 32, 'unsigned': 32, 'signed char': 8, 'unsigned long': 64, 'short': 16}[bt])
                 ms.append(('m%d_%d' % (me, j), ('s', bt), w))
+                # unnamed bit-fields (also zero-width, also a RUN of them) take no part in initialization (6.7.9p9): mn == ''
+                while ms and rng.random() < 0.3:
+                    ms.append(('', ('s', bt), rng.choice([0, 1, rng.randint(1, 7)]) if bt != '_Bool' else rng.choice([0, 1])))
             else:
                 t = self.ty(depth - 1)
                 anon = t[0] in 'SU' and rng.random() < 0.2
@@ -56,7 +59,7 @@ class TGen:
             body = []
             for mn, t, w in ms:
                 if mn is None: body.append(self.anon_text(t))
-                elif w is not None: body.append('%s %s : %d;' % (t[1], mn, w))
+                elif w is not None: body.append('%s %s : %d;' % (t[1], mn, w))      # mn == '': unnamed
                 else: body.append(self.ctype(t, mn) + ';')
             out.append('%s %s { %s };' % ('struct' if kind == 'S' else 'union', name, ' '.join(body)))
         return out
@@ -100,6 +103,7 @@ class IGen:
             ms = [ms[self.uchoice.get((path, t[1]), 0)]]
         for mn, mt, w in ms:
             if mn is None: out += self.leaves(mt, path)
+            elif mn == '': continue
             elif w is not None: out.append(('%s.%s' % (path, mn), mt[1], w))
             else: out += self.leaves(mt, '%s.%s' % (path, mn))
         return out
@@ -177,16 +181,17 @@ class IGen:
         if mode < 0.5:
             cnt = rng.randint(1, len(ms))
             for mn, mt, w in ms[:cnt]:
+                if mn == '': continue                      # unnamed bit-field: no initializer is given to it or taken by it
                 sub = path if mn is None else '%s.%s' % (path, mn)
                 if w is not None: txt, v = self.bf_value(mt[1], w); self.exp[sub] = v; parts.append(txt)
                 else:
                     txt, c = self.init(mt, sub); parts.append(self.maybe_elide(txt, c, mt)); complete = complete and c
             complete = complete and cnt == len(ms)
-            ov = [m for m in ms[:cnt] if m[0] is not None and m[2] is None and self.override_ok(m[1])]
+            ov = [m for m in ms[:cnt] if m[0] and m[2] is None and self.override_ok(m[1])]
             if ov and rng.random() < 0.25:
                 mn, mt, w = rng.choice(ov); txt, c = self.init(mt, '%s.%s' % (path, mn), force_string=True); parts.append('.%s = %s' % (mn, txt)); complete = False
         else:
-            cands = [m for m in ms if m[0] is not None]
+            cands = [m for m in ms if m[0]]
             if not cands:
                 mn, mt, w = ms[0]; txt, c = self.init(mt, path); parts.append(txt); complete = False
             else:
